@@ -1171,6 +1171,8 @@ fn any_command(rng: &mut Rng, in_tx: &mut bool, variants: &[String]) -> Vec<Vec<
         5 => own(*rng.pick(&[&[&b"GET"[..]][..], &[b"SET", b"k"], &[b"GET", b"a", b"b"], &[b"INCR"], &[b"EXPIRE", b"k", b"x"], &[b"SET", b"k", b"v", b"EX", b"0"]])),
         6 => own(*rng.pick(&[&[&b"INCR"[..], b"n"][..], &[b"DEL", b"k", b"key:2"], &[b"RPUSH", b"l", b"a", b"b"], &[b"LRANGE", b"l", b"0", b"-1"], &[b"HSET", b"h", b"f", b"1"], &[b"HGETALL", b"h"],
             &[b"EXISTS", b"k"], &[b"MGET", b"k", b"nokey"], &[b"TYPE", b"l"], &[b"APPEND", b"k", b"x"], &[b"STRLEN", b"k"], &[b"DBSIZE"], &[b"EVAL", b"return {1,{2,false},'x'}", b"0"]])),
+        7 if rng.chance(1, 2) => own(*rng.pick(&[&[&b"DEBUG"[..], b"OBJECT", b"k"][..], &[b"DEBUG", b"SLEEP", b"0"], &[b"DEBUG", b"SET-ACTIVE-EXPIRE", b"1"], &[b"CLIENT", b"GETNAME"], &[b"CLIENT", b"ID"],
+            &[b"CLIENT", b"INFO"], &[b"CLIENT", b"NOSUCHSUB"], &[b"CLIENT", b"KILL", b"x"], &[b"CONFIG", b"GET", b"maxmemory"], &[b"TIME"]])),
         7 => own(*rng.pick(&[&[&b"QUIT"[..]][..], &[b"SELECT", b"0"], &[b"COMMAND"], &[b"INFO"], &[b"FOO\r\n+INJECTED"], &[b""], &[b" \t"], &[b"\xc2\xa0", b"x"], &[b"\xff\xfe", b"x"], &[b"get"]])),
         _ => {
             let mut t = *in_tx;
@@ -1184,7 +1186,7 @@ fn any_command(rng: &mut Rng, in_tx: &mut bool, variants: &[String]) -> Vec<Vec<
 /// replies that legitimately differ from run to run: compared by kind only
 fn nondeterministic(cmd: &[Vec<u8>]) -> bool {
     let up: Vec<String> = cmd.iter().take(2).map(|a| String::from_utf8_lossy(a).to_uppercase()).collect();
-    (up.len() == 2 && up[0] == "ACL" && (up[1] == "GENPASS" || up[1] == "LOG")) || up[0] == "INFO" || (up[0] == "CLIENT" && up.len() == 2 && (up[1] == "ID" || up[1] == "INFO"))
+    (up.len() == 2 && up[0] == "ACL" && (up[1] == "GENPASS" || up[1] == "LOG")) || up[0] == "INFO" || up[0] == "TIME" || (up[0] == "DEBUG" && up.len() == 2 && up[1] == "OBJECT") || (up[0] == "CLIENT" && up.len() == 2 && (up[1] == "ID" || up[1] == "INFO"))
 }
 
 fn same_kind(a: &V, b: &V) -> bool {
@@ -1330,6 +1332,11 @@ fn any_corpus(cx: &mut Cx, variants: &[String]) {
         }
     }
     for (_, f) in STUBS {
+        singles.push(own(f));
+    }
+    // known commands with a sub-command form in check_acl_permission, unknown sub-commands of the stubs
+    for f in [&[&b"DEBUG"[..], b"OBJECT", b"k"][..], &[b"DEBUG", b"SLEEP", b"0"], &[b"DEBUG", b"SET-ACTIVE-EXPIRE", b"1"], &[b"CLIENT", b"GETNAME"], &[b"CLIENT", b"ID"], &[b"CLIENT", b"INFO"],
+        &[b"CLIENT", b"NOSUCHSUB"], &[b"CONFIG", b"GET", b"maxmemory"], &[b"CONFIG", b"SET", b"a", b"b"], &[b"CONFIG", b"RESETSTAT"]] {
         singles.push(own(f));
     }
     for chunk in singles.chunks(6) {
@@ -1845,6 +1852,18 @@ fn toml_of(shards: usize, cap: usize, prewarm: usize, read: usize, max: usize, m
 /// pipeline in one write and WAITS for all replies without closing.
 fn tcp_end_to_end(cx: &mut Cx) {
     use tokio::io::{AsyncReadExt, AsyncWriteExt};
+    // the two sources of defaults agree: ConnectionConfig::default() and the PerformanceConfig defaults
+    {
+        let a = ConnectionConfig::default();
+        let pc = redis_sim::production::PerformanceConfig::default();
+        let b = ConnectionConfig::from_perf_config(&pc.buffers, &pc.batching);
+        let fa = (a.max_buffer_size, a.read_buffer_size, a.min_pipeline_buffer, a.batch_threshold);
+        let fb = (b.max_buffer_size, b.read_buffer_size, b.min_pipeline_buffer, b.batch_threshold);
+        cx.out.count("config:defaults-compared");
+        if fa != fb || pc.validate().is_err() {
+            cx.out.violation("C04:config:defaults-differ", "ConnectionConfig::default() and the connection configuration derived from PerformanceConfig::default() differ (or the default PerformanceConfig does not validate)", json!({"ConnectionConfig::default (max, read, min_pipeline, threshold)": format!("{:?}", fa), "from PerformanceConfig::default": format!("{:?}", fb)}));
+        }
+    }
     let dir = cx.out.dir.clone();
     let cases = vec![
         TcpCfg { toml: toml_of(2, 4, 1, 16, 64, 0, 1, 2, 1), expect: Some(Cfg { min_pipeline: 0, batch_threshold: 1, read_size: 16, max_buffer: 64 }), label: "small-buffers" },
@@ -1852,6 +1871,7 @@ fn tcp_end_to_end(cx: &mut Cx) {
         TcpCfg { toml: "this is = not [ toml".into(), expect: Some(Cfg { min_pipeline: 60, batch_threshold: 2, read_size: 8192, max_buffer: 512 * 1024 * 1024 }), label: "unparsable-file-means-defaults" },
         TcpCfg { toml: "".into(), expect: Some(Cfg { min_pipeline: 60, batch_threshold: 2, read_size: 8192, max_buffer: 512 * 1024 * 1024 }), label: "empty-file-means-defaults" },
         TcpCfg { toml: "<no file>".into(), expect: Some(Cfg { min_pipeline: 60, batch_threshold: 2, read_size: 8192, max_buffer: 512 * 1024 * 1024 }), label: "missing-file-means-defaults" },
+        TcpCfg { toml: "<directory>".into(), expect: Some(Cfg { min_pipeline: 60, batch_threshold: 2, read_size: 8192, max_buffer: 512 * 1024 * 1024 }), label: "unreadable-path-means-defaults" },
         TcpCfg { toml: toml_of(3, 4, 1, 16, 64, 0, 1, 2, 1), expect: None, label: "invalid:shards-not-power-of-two" },
         TcpCfg { toml: toml_of(0, 4, 1, 16, 64, 0, 1, 2, 1), expect: None, label: "invalid:shards-zero" },
         TcpCfg { toml: toml_of(512, 4, 1, 16, 64, 0, 1, 2, 1), expect: None, label: "invalid:shards-above-256" },
@@ -1866,8 +1886,14 @@ fn tcp_end_to_end(cx: &mut Cx) {
     let deep: Vec<Vec<Vec<u8>>> = (0..300).map(|i| if i % 3 == 0 { vec![b"PING".to_vec()] } else if i % 3 == 1 { vec![b"SET".to_vec(), b"k".to_vec(), format!("{}", i).into_bytes()] } else { vec![b"GET".to_vec(), b"k".to_vec()] }).collect();
     let twin_cfg = Cfg { min_pipeline: 1 << 40, batch_threshold: 1 << 20, read_size: 8192, max_buffer: 1_000_000 };
     for (ci, case) in cases.iter().enumerate() {
-        let path = dir.join(format!("perf_config_{}.toml", ci));
-        if case.toml != "<no file>" {
+        let _ = ci;
+        let path = dir.join(format!("perf_config_{}.toml", case.label.replace(':', "_")));
+        // (the out directory survives between runs: start from nothing at this path)
+        let _ = std::fs::remove_dir_all(&path);
+        let _ = std::fs::remove_file(&path);
+        if case.toml == "<directory>" {
+            std::fs::create_dir_all(&path).expect("mkdir");
+        } else if case.toml != "<no file>" {
             std::fs::write(&path, &case.toml).expect("write toml");
         }
         std::env::set_var("PERF_CONFIG_PATH", &path);
